@@ -28,8 +28,12 @@ def cache_scenarios(thorough, rng):
     def cross(x):
         h = x["hist"]
         return h[2][0].startswith("hdr_reuse") and not h[1][0].startswith("hdr_reuse") and (h[1][0] == "hdr_s3") != (h[2][0] == "hdr_reuse_s3") and h[1][1] != h[2][1]
-    first = [x for x in reuse if cross(x)]
-    rest = [x for x in reuse if not cross(x)]
+    def across_junk(x):
+        h = x["hist"]
+        return h[1][0] in ("junk_truncated", "junk_badheader") and h[2][0].startswith("hdr_reuse") and not h[0][0].startswith("hdr_reuse") and h[0][1] == h[2][1] \
+            and (h[0][0] == "hdr_s3") == (h[2][0] == "hdr_reuse_s3")
+    first = [x for x in reuse if cross(x) or across_junk(x)]
+    rest = [x for x in reuse if not (cross(x) or across_junk(x))]
     return first + (rest if thorough else rng.sample(rest, min(len(rest), 12))), r
 
 
